@@ -82,6 +82,7 @@ def run(chk):
                     chk.count("ILLCOND-SKIP")
                     continue
                 try:
+                    impl.sspor_bystander(n, p)      # another model fitted and used in between must not influence this one
                     out = impl.quiet(model.predict, Xsig[:, S].copy())
                     one = impl.quiet(model.predict, Xsig[0, S].copy())
                 except Exception as e:
